@@ -135,6 +135,11 @@ Inductive bsE (env : fenv) : stmt -> state -> outcome -> Prop :=
     env g = Some fn -> eval_args args s = Some (vals, cells, s1) -> List.length vals = List.length (fparams fn) ->
     bsE env (fbody fn) (callee_init fn vals cells s1) (OReturn v st') ->
     finish_call ret fn cells s1 st' v = Some s2 ->
+    bsE env (SCall ret g args) s (ONormal s2)
+| bsE_call_void ret g args s fn vals cells s1 st' s2 :     (* the callee falls off its end: no value *)
+    env g = Some fn -> eval_args args s = Some (vals, cells, s1) -> List.length vals = List.length (fparams fn) ->
+    bsE env (fbody fn) (callee_init fn vals cells s1) (ONormal st') ->
+    finish_call ret fn cells s1 st' VUndef = Some s2 ->
     bsE env (SCall ret g args) s (ONormal s2).
 
 Definition fromE (env : fenv) (f0 : nat) (st : stmt) (s : state) (o : outcome) : Prop := forall f, (f0 <= f)%nat -> execE env f st s = o.
@@ -152,6 +157,8 @@ Proof.
   - destruct IHbsE as (f1 & H2). exists (S f1). intros f Hf. destruct f; [lia|]. cbn [execE]. rewrite H, H0.
     destruct t; apply H2; lia.
   - exists 1%nat. intros f Hf. destruct f; [lia|]. cbn [execE]. now rewrite H.
+  - destruct IHbsE as (f1 & H4). exists (S f1). intros f Hf. destruct f; [lia|]. cbn [execE]. rewrite H, H0.
+    rewrite H1, Nat.eqb_refl. cbn [negb]. rewrite H4 by lia. now rewrite H3.
   - destruct IHbsE as (f1 & H4). exists (S f1). intros f Hf. destruct f; [lia|]. cbn [execE]. rewrite H, H0.
     rewrite H1, Nat.eqb_refl. cbn [negb]. rewrite H4 by lia. now rewrite H3.
 Qed.
